@@ -96,6 +96,15 @@ type enableDeleteIterator struct {
 	StorageIterator
 }
 
+// Next skips deleted entries: a delete is stored as an empty value, which is not an entry of the database
+func (i *enableDeleteIterator) Next() bool {
+	for i.StorageIterator.Next() {
+		if len(i.StorageIterator.Value()) != 0 {
+			return true
+		}
+	}
+	return false
+}
 func (i *enableDeleteIterator) Value() []byte {
 	val := i.StorageIterator.Value()
 	if len(val) == 0 {
